@@ -123,7 +123,7 @@ typedef struct nvec { node *p; size_t n, cap; } nvec;
 static void nv_push(nvec *v, const node *x) { if (v->n == v->cap) { v->cap = v->cap ? v->cap * 2 : 1024; v->p = realloc(v->p, v->cap * sizeof(node)); } v->p[v->n++] = *x; }
 
 static int DEVDEPTH, NDEVMAX;
-static const int DEV_ACTS[] = { CBA_DECLINED, CBA_STOP, CBA_ERROR, CBA_REGHOOKS, CBA_DESTROY_OTHER };
+static int DEV_ACTS[8] = { CBA_DECLINED, CBA_STOP, CBA_ERROR, CBA_REGHOOKS, CBA_DESTROY_OTHER }; static int NDEVACTS = 5;
 
 static void expand(const node *nd, nvec *next, int depth) {
     /* number of callbacks fired by the history itself (needed to address the callbacks of the new event) */
@@ -138,7 +138,7 @@ static void expand(const node *nd, nvec *next, int depth) {
         if (depth <= DEVDEPTH && nd->ndev < NDEVMAX) {
             if (ncb_hist < 0) { build_script(nd, -1, 0, 0); if (hx_run(&S, &O) == 0) { ncb_hist = O.ncb; n_exec++; } else ncb_hist = 0; }
             for (int j = ncb_hist + 1; j <= after; j++)
-                for (size_t a = 0; a < sizeof DEV_ACTS / sizeof DEV_ACTS[0]; a++) {
+                for (int a = 0; a < NDEVACTS; a++) {
                     if (expand_one(nd, e, j, DEV_ACTS[a], &ch, NULL, NULL)) { n_states++; per_depth_states[depth]++; nv_push(next, &ch); }
                     per_depth_trans[depth]++;
                 }
@@ -154,6 +154,8 @@ static int worker(int argc, char **argv) {
     RAW = atoi(hx_arg(argc, argv, "--raw", "0"));
     DEVDEPTH = atoi(hx_arg(argc, argv, "--devdepth", "0"));
     NDEVMAX = atoi(hx_arg(argc, argv, "--ndev", "1"));
+    /* labelled scenario: the TRANSACTION_COMPLETE callback destroys its own transaction (auto-destroy off) */
+    if (hx_flag(argc, argv, "--selfdestroy")) { DEV_ACTS[0] = CBA_DESTROY_SELF; NDEVACTS = 1; }
     if (depth > MAXD) depth = MAXD;
     cfg_menu(cfgi, &CFG);
     gx_deflate(&gz_ok, (const uint8_t *) "ok", 2, 0);
